@@ -282,6 +282,63 @@ func TestVerifC09H(t *testing.T) {
 			c09Crowd(r, n)
 		}
 	}
+	if vh.MyShard(len(cfgs) + len(crowds)) {
+		c09Magnitudes(r)
+	}
+}
+
+// c09Magnitudes: the statement's idle clause for bursts of large magnitude (max_tokens has no
+// documented upper limit): a client that has spent j tokens and then stays idle for k refill
+// periods is admitted at least min(k, max_tokens) more times, and a new client is admitted.
+// max_tokens over {2^31-1, 2^31, 2^53, 2^62, 2^63-2, 2^63-1} x spent 1..3 x idle 1, 2, 5,
+// 1000 and 10^9 periods (refill 1 s), on the real limiter under the virtual clock.
+func c09Magnitudes(r *vres.Report) {
+	start := time.Now()
+	var evals int64
+	var outs vres.Outcomes
+	for _, max := range []int{1<<31 - 1, 1 << 31, 1 << 53, 1 << 62, 1<<63 - 2, 1<<63 - 1} {
+		for spent := 1; spent <= 3; spent++ {
+			for _, idle := range []int{1, 2, 5, 1000, 1000000000} {
+				first, after, fresh := 0, 0, false
+				want := idle
+				if want > 6 {
+					want = 6 // six requests are sent after the idle time
+				}
+				s := vrt.Run(vrt.Options{Horizon: 1 << 30}, func(s *vrt.Sched) {
+					rl := NewTokenBucketRateLimiter(max, time.Second)
+					for i := 0; i < spent; i++ {
+						if rl.Allow("10.0.0.1") {
+							first++
+						}
+					}
+					s.AdvanceQuiet(time.Duration(idle) * time.Second)
+					for i := 0; i < 6; i++ {
+						if rl.Allow("10.0.0.1") {
+							after++
+						}
+					}
+					fresh = rl.Allow("10.0.0.2")
+					evals += int64(spent) + 7
+				})
+				if s.Verdict.Kind != vrt.OK {
+					r.Violate("C09/magnitudes/"+s.Verdict.Kind.String(), s.Verdict.Detail, 1, nil)
+					continue
+				}
+				outs.Add(fmt.Sprintf("%d/%d/%v", first, after, fresh))
+				desc := fmt.Sprintf("max_tokens=%d, refill 1s: a client sends %d requests, stays idle for %d refill periods and sends 6 more", max, spent, idle)
+				switch {
+				case first != spent:
+					r.Violate("C09/magnitudes/burst-refused", fmt.Sprintf("%s: only %d of the first %d were admitted", desc, first, spent), spent, map[string]interface{}{"engine": "H", "test": "TestVerifC09H", "max": max, "spent": spent, "idle": idle})
+				case after < want:
+					r.Violate("C09/magnitudes/idle-client-refused", fmt.Sprintf("%s: %d of them were admitted, the statement promises at least min(k, max_tokens) = %d", desc, after, want), spent, map[string]interface{}{"engine": "H", "test": "TestVerifC09H", "max": max, "spent": spent, "idle": idle})
+				case !fresh:
+					r.Violate("C09/magnitudes/new-client-refused", desc+": a new client was refused its first request", spent, nil)
+				}
+			}
+		}
+	}
+	r.AddScenario(vres.Scenario{Name: "limiter-large-bursts", Engine: "H", Executions: 90, States: 90, Transitions: evals, Outcomes: outs.N(),
+		Bound: "max_tokens {2^31-1, 2^31, 2^53, 2^62, 2^63-2, 2^63-1} x 1..3 tokens spent x idle for 1, 2, 5, 1000, 10^9 refill periods, six requests afterwards, one new client", Exhaustive: true, Extra: map[string]interface{}{"wall_s": time.Since(start).Seconds()}})
 }
 
 // c09Crowd: a client spends part of its burst, n other clients arrive once each, the client
